@@ -17,7 +17,7 @@ ANCHORS = ['txtorcon/torcontrolprotocol.py', 'txtorcon/util.py']
 RULE = ('advertised method lists: every ordered subset of {SAFECOOKIE, COOKIE, HASHEDPASSWORD, NULL} plus an unknown method and the missing '
         'AUTH line (65+ lists) x cookie conditions {no COOKIEFILE, unreadable (a directory), 0/31/33/32 bytes; paths with space, quote, '
         'backslash} x password providers {none, bytes, str, Deferred, coroutine, empty, raising} x server scripts (every step answered ok / '
-        '5xx / disconnect; AUTHCHALLENGE answered with the right hash, a wrong hash, a hash over a different cookie, or without the keywords) '
+        '5xx / disconnect; AUTHCHALLENGE answered with the right hash, a wrong hash, a hash over a different cookie, a truncated / empty / extended / last-bit-flipped hash, or without the keywords) '
         'against the real protocol with real cookie files and real HMAC-SHA256; quick samples the product, thorough enumerates it. '
         'non-trivial = the exchange goes beyond PROTOCOLINFO; distinct = distinct cells')
 TRUSTED = ["HMAC-SHA256 is an uninterpreted function in the theorems; the driver instantiates it with the two digests the harness computed with hashlib",
@@ -140,6 +140,8 @@ class Server:
                 h = hm(S2C, cookie + CNONCE + SNONCE)
             elif resp == 'chal-wrong':
                 h = bytes([hm(S2C, cookie + CNONCE + SNONCE)[0] ^ 1]) + hm(S2C, cookie + CNONCE + SNONCE)[1:]
+            elif resp in VARIANTS:
+                h = VARIANTS[resp](hm(S2C, cookie + CNONCE + SNONCE))
             else:
                 h = hm(S2C, b'\x00' * 32 + CNONCE + SNONCE)
             return '250 AUTHCHALLENGE SERVERHASH=%s SERVERNONCE=%s\r\n' % (h.hex().upper(), SNONCE.hex().upper())
@@ -167,6 +169,11 @@ class Server:
                 break
             self.proto.dataReceived(self.reply_for(line, resp).encode('latin-1'))
         return self.log
+
+
+# server hashes that share a part with the right one: a comparison that stops early, or ignores lengths, accepts them
+VARIANTS = {'chal-prefix16': lambda h: h[:16], 'chal-prefix31': lambda h: h[:31], 'chal-empty': lambda h: b'',
+            'chal-longer': lambda h: h + b'\x00', 'chal-lastbit': lambda h: h[:-1] + bytes([h[-1] ^ 0x80])}
 
 
 def run_impl(c):
@@ -197,7 +204,7 @@ def scripts_for():
             s = list(base)
             s[i] = bad
             yield s
-    for ch in ('chal-good', 'chal-wrong', 'chal-othercookie', 'chalbad'):
+    for ch in ('chal-good', 'chal-wrong', 'chal-othercookie', 'chalbad') + tuple(VARIANTS):
         yield ['ok', ch] + ['ok'] * 6
         yield ['ok', ch, 'err']
         yield ['ok', ch, 'ok', 'err', 'ok', 'ok', 'ok']
@@ -224,7 +231,7 @@ def gen_cases(rng, tier):
     else:
         for _ in range(700):
             ck = rng.choice(COOKIES) if rng.random() < 0.5 else rng.choice(['len32', 'len32-weirdpath'])
-            sc = list(rng.choice(scripts)) if rng.random() < 0.6 else ['ok', rng.choice(['chal-good', 'chal-good', 'chal-wrong'])] + ['ok'] * 6
+            sc = list(rng.choice(scripts)) if rng.random() < 0.6 else ['ok', rng.choice(['chal-good', 'chal-good', 'chal-wrong'] + list(VARIANTS))] + ['ok'] * 6
             yield {'methods': rng.choice(mls), 'cookie': ck, 'pw': rng.choice(PWS), 'script': sc}
 
 
@@ -250,6 +257,8 @@ def driver_line(c):
         elif r == 'chal-wrong':
             h = bytes([bytes.fromhex(s2c)[0] ^ 1]) + bytes.fromhex(s2c)[1:]
             resps.append('chal:%s:%s' % (h.hex(), SNONCE.hex()))
+        elif r in VARIANTS:
+            resps.append('chal:%s:%s' % (VARIANTS[r](bytes.fromhex(s2c)).hex(), SNONCE.hex()))
         elif r == 'chal-othercookie':
             resps.append('chal:%s:%s' % (hm(S2C, b'\x00' * 32 + CNONCE + SNONCE).hex(), SNONCE.hex()))
         else:
